@@ -168,6 +168,53 @@ pub fn corr(ctx: &mut Ctx) {
             }
         }
     }
+    // ---- every expiry position through the FILE entry point (`oxipng::optimize`, which sets up its own deadline and has
+    // its own early returns): a separate destination always receives a file, an in-place run leaves the input or something
+    // smaller; whatever is there afterwards is judged like any other result ------------------------------------------
+    {
+        use oxipng::{InFile, OutFile};
+        let fdir = crate::cli::work_dir("deadline-files");
+        for _ in 0..(ctx.n / 8).max(6) {
+            let case = gen_case(&mut rng, Profile::Lossless, false, 8);
+            let inp = fdir.join("in.png");
+            let outp = fdir.join("out.png");
+            let o = case.opts.to_oxi();
+            std::fs::write(&inp, &case.input).unwrap();
+            let _ = std::fs::remove_file(&outp);
+            verif::arm_deadline(None);
+            let _ = pool.install(|| crate::util::catch(|| oxipng::optimize(&InFile::Path(inp.clone()), &OutFile::Path { path: Some(outp.clone()), preserve_attrs: false }, &o)));
+            let total = verif::disarm_deadline();
+            for k in 0..=total.min(30) {
+                let in_place = k % 3 == 2;
+                std::fs::write(&inp, &case.input).unwrap();
+                let _ = std::fs::remove_file(&outp);
+                let dest = if in_place { OutFile::Path { path: None, preserve_attrs: false } } else { OutFile::Path { path: Some(outp.clone()), preserve_attrs: false } };
+                verif::arm_deadline(Some(k));
+                let r = pool.install(|| crate::util::catch(|| oxipng::optimize(&InFile::Path(inp.clone()), &dest, &o)));
+                verif::disarm_deadline();
+                st.count("file_entry_point_runs");
+                let c2 = Case { img: case.img.clone(), class: format!("{} file entry point, {} expire_at={}", case.class, if in_place { "in place" } else { "separate destination" }, k), enc: case.enc.clone(), input: case.input.clone(), opts: case.opts.clone() };
+                match r {
+                    None => { st.fail("panic", format!("optimize() panics at expiry position {}", k), c2.replay_json()); continue; }
+                    Some(Err(e)) => { st.fail("expired-file-run", format!("optimize() fails on a valid file at expiry position {}: {}", k, e), c2.replay_json()); continue; }
+                    Some(Ok(())) => {}
+                }
+                let delivered = std::fs::read(if in_place { &inp } else { &outp }).unwrap_or_default();
+                if delivered.is_empty() {
+                    st.fail("expired-file-run", format!("optimize() reports success and left no file at the destination (expiry position {})", k), c2.replay_json());
+                    continue;
+                }
+                if !in_place && std::fs::read(&inp).ok().as_ref() != Some(&case.input) {
+                    st.fail("expired-file-run", format!("the input file was modified although a separate destination was named (expiry position {})", k), c2.replay_json());
+                }
+                let out = Outcome::Ok(delivered);
+                judge("C01", &c2, &out, &mut st);
+                judge("C02", &c2, &out, &mut st);
+                if !case.opts.force { judge("C04", &c2, &out, &mut st); }
+            }
+        }
+        let _ = std::fs::remove_dir_all(&fdir);
+    }
     // ---- "before any work" through the file entry point and the executable: `--timeout 0` on every route, standard
     // input included. Whatever the run decides not to do, what it delivers - in place, to --out, to standard output - is
     // a well-formed file with the input's pixels that is not larger, and it IS delivered. ------------------------------
